@@ -114,6 +114,7 @@ TRAP_TARGETS = [
     ("vt_trapmod", "builtin_eval"), ("vt_trapmod", "builtin_print"), ("vt_trapmod", "type_type"), ("vt_trapmod", "object_type"),
     ("vt_trapmod", "sub"), ("vt_trapmod", "sub.func"), ("vt_trapmod.sub", "func"), ("builtins", "eval"), ("builtins", "print"),
     ("os", "system"), ("os", "path.join"), ("functools", "partial"), ("vt_trapmod", "exc_instance.__class__.__base__.__subclasses__"),
+    ("vt_trapmod", "nosy"), ("vt_trapmod", "nosy.method"), ("vt_trapmod", "nosy_partial"), ("vt_trapmod", "NosyClass"), ("vt_trapmod", "nosy.__class__"),
     ("vt_trapmod", "GoodExc.__init__"), ("vt_trapmod", "GoodExc.mro"), ("vt_trapmod", "GoodExc.__class__"), ("builtins", "BaseException.__new__"),
 ]
 EXC_TARGETS = [
